@@ -172,9 +172,9 @@ func check(args []string) {
 		os.Exit(2)
 	}
 	start := time.Now()
-	tier := rules.Tier{Name: *tierName, Depth: 4}
+	tier := rules.Tier{Name: *tierName, Depth: 8}
 	if *tierName == "thorough" {
-		tier.Depth = 8
+		tier.Depth = 12
 	}
 	defer func() {
 		if r := recover(); r != nil {
@@ -216,7 +216,7 @@ func check(args []string) {
 	var extra map[string]any
 	if *tierName == "thorough" && overlay == nil {
 		// positive/negative self-validation on overlays of the current tree (informational)
-		rows, killed, survived, silent, alarms, stale := runBattery(prop, *dir, rules.Tier{Name: "quick", Depth: 4})
+		rows, killed, survived, silent, alarms, stale := runBattery(prop, *dir, rules.Tier{Name: "quick", Depth: 8})
 		extra = map[string]any{
 			"self_validation": map[string]any{
 				"seeded_violations_killed": killed, "seeded_violations_survived": survived,
@@ -246,7 +246,7 @@ func checkMany(ids []string, tierName, dir string, overlay map[string][]byte, se
 		fmt.Println(string(b))
 		return
 	}
-	tier := rules.Tier{Name: tierName, Depth: 4}
+	tier := rules.Tier{Name: tierName, Depth: 8}
 	cache := map[string]*rules.UnitResult{}
 	known := readKnownFindings()
 	for _, id := range ids {
